@@ -88,6 +88,11 @@ var malformedReplies = map[string]string{
 	"empty":            "",
 	"nul-in-header":    "HTTP/1.1 200 OK\r\nX-A: a\x00b\r\nContent-Length: 2\r\n\r\nhi",
 	"negative-cl":      "HTTP/1.1 200 OK\r\nContent-Length: -5\r\n\r\nhi",
+	// status lines without a reason phrase (with and without the separating space)
+	"no-reason-503":    "HTTP/1.1 503\r\nContent-Length: 2\r\n\r\nhi",
+	"no-reason-404":    "HTTP/1.1 404\r\nContent-Length: 0\r\n\r\n",
+	"empty-reason-500": "HTTP/1.1 500 \r\nContent-Length: 0\r\n\r\n",
+	"no-reason-200":    "HTTP/1.1 200\r\nContent-Length: 2\r\n\r\nhi",
 }
 
 type child struct {
@@ -122,6 +127,10 @@ func (w *world) upstreamHandler(oc *lib.OConn, req *lib.Msg) lib.Action {
 			body = strings.Repeat("rejected by upstream\n", 5)
 		}
 		fmt.Fprintf(oc.C, "HTTP/1.1 %d Rejected\r\nX-Upstream: 1\r\nContent-Length: %d\r\n\r\n%s", code, len(body), body)
+		return lib.Close
+	case strings.HasPrefix(host, "bare"):
+		// rejection whose status line has no reason phrase
+		fmt.Fprintf(oc.C, "HTTP/1.1 503\r\nX-Upstream: 1\r\nContent-Length: 0\r\n\r\n")
 		return lib.Close
 	case strings.HasPrefix(host, "cutreject"):
 		// rejection whose announced body is cut short
